@@ -253,6 +253,24 @@ func c12(run *core.Run, replay string) {
 				cases = append(cases, &entCase{Codec: codec, Shape: fmt.Sprintf("alpha:%d", k), Size: sz, Seed: run.Seed + int64(ki), Prefix: 2 + ki%12})
 			}
 		}
+		// staircase histograms (Fibonacci-like counts): code length limiting and frequency renormalisation of the static coders,
+		// with chunk totals around the renormalisation scales
+		for q, sz := range []int{2047, 2048, 2049, 4096, 1024, 16384, 18432, 18433, 256, 512, 65536} {
+			for sd := 0; sd < run.Pick(6, 30); sd++ {
+				if kz.Heavy(codec) && (sd > 0 || sz > 20000) {
+					continue
+				}
+				cases = append(cases, &entCase{Codec: codec, Shape: []string{"staircase", "staircase2"}[sd%2], Size: sz, Seed: run.Seed*29 + int64(sd*11+q), Prefix: 2 + (q+sd)%12})
+			}
+		}
+		if codec == "HUFFMAN" {
+			// chunk totals exactly equal to the scale the code length limiter renormalises to (2048), many histograms
+			for sd := 0; sd < run.Pick(150, 1500); sd++ {
+				for q, sz := range []int{2048, 16384 + 2048} {
+					cases = append(cases, &entCase{Codec: codec, Shape: []string{"staircase2", "staircase"}[(sd/2)%2], Size: sz, Seed: run.Seed*31 + int64(sd*3+q), Prefix: 2 + sd%9})
+				}
+			}
+		}
 		// back-to-back instances
 		for i, second := range kz.Entropies {
 			for _, sz := range []int{1, 64, 1500, 17000} {
